@@ -215,6 +215,9 @@ func (a *AddressDecMap) Decode(r stdio.Reader) (err error) {
 			return errors.WithMessage(err, "decoding map index")
 		}
 		addr := NewAddress(BackendID(idx))
+		if addr == nil {
+			return errors.Errorf("unknown backend id %d", idx)
+		}
 		err = perunio.Decode(r, addr)
 		if err != nil {
 			return errors.WithMessagef(err, "decoding %d-th address map entry", i)
